@@ -555,7 +555,7 @@ def _limit_mem(nbytes):
     return f
 
 
-def _run_shard(binary, sub, lines, env, timeout, mem_limit=None):
+def _run_shard(binary, sub, lines, env, timeout, mem_limit=None, cwd=None):
     """Run one shard; survives a dying harness process by restarting after the fatal line."""
     outs = []
     start = 0
@@ -563,7 +563,7 @@ def _run_shard(binary, sub, lines, env, timeout, mem_limit=None):
         data = "\n".join(lines[start:]) + "\n"
         try:
             p = subprocess.run([binary, sub], input=data, stdout=subprocess.PIPE, stderr=subprocess.PIPE,
-                               text=True, env=env, timeout=timeout,
+                               text=True, env=env, timeout=timeout, cwd=cwd,
                                preexec_fn=_limit_mem(mem_limit) if mem_limit else None)
             got = [ln for ln in p.stdout.split("\n") if ln.strip()]
             dead = p.returncode != 0
@@ -592,7 +592,7 @@ def _run_shard(binary, sub, lines, env, timeout, mem_limit=None):
     return outs[:len(lines)]
 
 
-def run_harness(binary, sub, requests, env_extra=None, timeout=900, shards=None, mem_limit=None):
+def run_harness(binary, sub, requests, env_extra=None, timeout=900, shards=None, mem_limit=None, cwd=None):
     """Send JSON requests to `jrharness <sub>`, sharded; returns answers in order."""
     from concurrent.futures import ThreadPoolExecutor
     if not requests:
@@ -607,7 +607,7 @@ def run_harness(binary, sub, requests, env_extra=None, timeout=900, shards=None,
         buckets[i % n].append((i, json.dumps(r, ensure_ascii=False)))
     results = [None] * len(requests)
     with ThreadPoolExecutor(max_workers=n) as ex:
-        futs = [(b, ex.submit(_run_shard, binary, sub, [x[1] for x in b], env, timeout, mem_limit))
+        futs = [(b, ex.submit(_run_shard, binary, sub, [x[1] for x in b], env, timeout, mem_limit, cwd))
                 for b in buckets if b]
         for b, f in futs:
             outs = f.result()
